@@ -76,7 +76,11 @@ _re_error = regex.compile(r'''
         |
             '(?>(?>''|[^\?!*\/\[\]':"])+)'
         )!
-    )?(?P<name>\#(?>NULL!|DIV/0!|VALUE!|REF!|NUM!|NAME\?|N/A))\s*
+    )?(?P<name>\#(?>NULL!|DIV/0!|VALUE!|REF!|NUM!|NAME\?|N/A))
+    (?>  # Cells of a deleted sheet (e.g., `#REF!A1:B2`): still `#REF!`.
+        (?<=\#REF!)\$?[A-Z]{1,3}\$?[1-9][0-9]*
+        (?>:\$?[A-Z]{1,3}\$?[1-9][0-9]*)?(?![\w\(])
+    )?\s*
 ''', regex.IGNORECASE | regex.X | regex.DOTALL)
 
 
